@@ -15,6 +15,7 @@ import (
 	"time"
 
 	frugal "github.com/Workiva/frugal/lib/go"
+	"verifharness/hx"
 	"github.com/apache/thrift/lib/go/thrift"
 )
 
@@ -33,7 +34,17 @@ type concCall struct {
 type concReq struct {
 	Calls  []concCall `json:"calls"`
 	Rounds int        `json:"rounds"`
+	// Server: "" = FSimpleServer over loopback TCP with an adapter-transport client; "nats" = FNatsServer (default event
+	// handlers, ONE worker: later requests wait in its queue) over an embedded broker with an FNatsTransport client
+	Server string `json:"server"`
 }
+
+var (
+	concNatsOnce sync.Once
+	concNatsURL  string
+	concNatsErr  error
+	concNatsSeq  int
+)
 
 type concOut struct {
 	Err  string      `json:"err,omitempty"`
@@ -104,41 +115,74 @@ func runConcurrent(q concReq) concResp {
 	}
 	bp.AddToProcessorMap("echo", fn)
 	bp.AddToProcessorMap("leaf", &leafFn{frugal.NewFBaseProcessorFunction(bp.GetWriteMutex(), nil)})
-	st, err := thrift.NewTServerSocket("127.0.0.1:0")
-	if err != nil {
-		r.Err = err.Error()
-		return r
+	var tr, tr2 frugal.FTransport
+	if q.Server == "nats" {
+		concNatsOnce.Do(func() { _, concNatsURL, concNatsErr = hx.StartNats() })
+		if concNatsErr != nil {
+			r.Err = concNatsErr.Error()
+			return r
+		}
+		sconn, err := hx.NatsConn(concNatsURL)
+		if err != nil {
+			r.Err = err.Error()
+			return r
+		}
+		defer sconn.Close()
+		cconn, err := hx.NatsConn(concNatsURL)
+		if err != nil {
+			r.Err = err.Error()
+			return r
+		}
+		defer cconn.Close()
+		concNatsSeq++
+		subject := fmt.Sprintf("c09.conc.%d.%d", os.Getpid(), concNatsSeq)
+		nsrv := frugal.NewFNatsServerBuilder(sconn, bp, pf, []string{subject}).Build()
+		go nsrv.Serve()
+		defer nsrv.Stop()
+		deadline := time.Now().Add(3 * time.Second)
+		for sconn.NumSubscriptions() == 0 && time.Now().Before(deadline) {
+			time.Sleep(time.Millisecond)
+		}
+		sconn.Flush()
+		tr = frugal.NewFNatsTransport(cconn, subject, "")
+		tr2 = frugal.NewFNatsTransport(cconn, subject, "")
+	} else {
+		st, err := thrift.NewTServerSocket("127.0.0.1:0")
+		if err != nil {
+			r.Err = err.Error()
+			return r
+		}
+		if err := st.Listen(); err != nil {
+			r.Err = err.Error()
+			return r
+		}
+		srv := frugal.NewFSimpleServer(bp, st, pf)
+		go srv.Serve()
+		defer srv.Stop()
+		conn, err := net.Dial("tcp", st.Addr().String())
+		if err != nil {
+			r.Err = err.Error()
+			return r
+		}
+		tr = frugal.NewAdapterTransport(thrift.NewTSocketFromConnConf(conn, &thrift.TConfiguration{}))
+		conn2, err := net.Dial("tcp", st.Addr().String())
+		if err != nil {
+			r.Err = err.Error()
+			return r
+		}
+		tr2 = frugal.NewAdapterTransport(thrift.NewTSocketFromConnConf(conn2, &thrift.TConfiguration{}))
 	}
-	if err := st.Listen(); err != nil {
-		r.Err = err.Error()
-		return r
-	}
-	srv := frugal.NewFSimpleServer(bp, st, pf)
-	go srv.Serve()
-	defer srv.Stop()
-	conn, err := net.Dial("tcp", st.Addr().String())
-	if err != nil {
-		r.Err = err.Error()
-		return r
-	}
-	tr := frugal.NewAdapterTransport(thrift.NewTSocketFromConnConf(conn, &thrift.TConfiguration{}))
 	if err := tr.Open(); err != nil {
 		r.Err = err.Error()
 		return r
 	}
 	defer tr.Close()
-	client := frugal.NewFStandardClient(frugal.NewFServiceProvider(tr, pf))
-	conn2, err := net.Dial("tcp", st.Addr().String())
-	if err != nil {
-		r.Err = err.Error()
-		return r
-	}
-	tr2 := frugal.NewAdapterTransport(thrift.NewTSocketFromConnConf(conn2, &thrift.TConfiguration{}))
 	if err := tr2.Open(); err != nil {
 		r.Err = err.Error()
 		return r
 	}
 	defer tr2.Close()
+	client := frugal.NewFStandardClient(frugal.NewFServiceProvider(tr, pf))
 	fn.onward = frugal.NewFStandardClient(frugal.NewFServiceProvider(tr2, pf))
 	rounds := q.Rounds
 	if rounds <= 0 {
